@@ -425,12 +425,14 @@ def c18(tier):
             ("shaped", [a for a in sets["shaped"] if a["n"] <= (12 if thorough else 9)], "compact", 24 if thorough else 8, 1),
             ("rand", sets["rand"], "compact", 24 if thorough else 6, 1),
             ("randlists", [a for a in sets["rand"] if a["n"] <= 5][:100 if thorough else 16], "compact", 6, 3),
-            ("mid", sets["mid"] if thorough else sets["mid"][:16], "compact", 2, 1)]
+            ("mid", sets["mid"] if thorough else sets["mid"][:16], "compact", 2, 1),
+            ("padded", sets["rand"][:200 if thorough else 80], "padded", 2, 1)]
     nt = set()
     for name, afs, present, budget, lists in plan:
         segs = run_static(res, "C18_" + name, afs, sems="CO,PR,ST,SST,STG,ID", kinds="SE,DC,DS", cert="both", present=present,
                           oracle="dfs", budget=budget, lists=lists, cc="yes", cap=400)
-        segs = [[e for e in s if e["ev"] in ("af", "cc") or (e["ev"] == "q" and e["out"]["capped"])] for s in segs]
+        # padded presentation (components of 40-80 arguments): termination only, the bound needs the base family of the real component
+        segs = [[e for e in s if e["ev"] == "af" or (e["ev"] == "cc" and present != "padded") or (e["ev"] == "q" and e["out"]["capped"])] for s in segs]
         t1, st = vlib.judge("TraceStatic.tla", segs, res.wd, "C18_" + name, shards=8)
         res.add_judge(name, t1, st, only_props={"C18"})
         for seg in segs:
@@ -793,7 +795,7 @@ def c19(tier):
         afile = os.path.join(res.wd, name + ".afs.jsonl")
         out = os.path.join(res.wd, name + ".ndjson")
         afgen.write(afile, afs)
-        vlib.vh(["equiv", "--afs", afile, "--out", out, "--threads", vlib.NCPU])
+        vlib.vh(["equiv", "--afs", afile, "--out", out, "--threads", vlib.NCPU, "--big", (8 if thorough else 4) if name == "shaped" else 0])
         evs = [json.loads(l) for l in open(out)]
         segs = [[{"ev": "reset"}] + evs[i:i + 400] for i in range(1, len(evs), 400)]
         t1, st = vlib.judge("TraceEquiv.tla", segs, res.wd, name, shards=8)
@@ -803,10 +805,12 @@ def c19(tier):
             log("  NOTE drift: %d reductions differ from EquivAlgo.tla's transcription (not a verdict)" % len(drift))
         res.add_judge(name, [t for t in t1 if not t["pred"].startswith("T2:")], st, only_props={"C19"})
         for e in evs[1:]:
+            if e["ev"] != "equiv":
+                continue
             if any(len(c) >= 2 for c in e["classes"]) and len(e["classes"]) >= 2:
                 nt.add((json.dumps(e["att"]), len(e["args"])))
         if len(res.samples) < 3:
-            cand = [e for e in evs[1:] if any(len(c) >= 2 for c in e["classes"]) and len(e["classes"]) >= 3]
+            cand = [e for e in evs[1:] if e["ev"] == "equiv" and any(len(c) >= 2 for c in e["classes"]) and len(e["classes"]) >= 3]
             if cand:
                 res.samples.append(cand[len(cand) // 2])
     res.nontrivial = len(nt)
@@ -895,6 +899,9 @@ def c05(tier):
     t = time.time()
     segs, used = clilib.run_all(todo, afs, res.wd, bins, seed(), per_af)
     segs.append([{"ev": "af", "idx": -1, "n": 0, "args": [], "ids": [], "att": [], "present": "file", "tag": "", "sems": []}] + clilib.problems_events(bins))
+    bigsegs = clilib.run_big(clilib.big_instances(seed(), 12 if thorough else 3), res.wd, bins, seed())
+    t1b, stb = vlib.judge("TraceStatic.tla", bigsegs, res.wd, "cli_big", shards=min(8, len(bigsegs)))
+    res.add_judge("cli_big_instances", t1b, stb, only_props={"C05"})
     log("  RUN cli: %d invocations (of %d abstract ones) on %d frameworks %.1fs" % (used, len(invs), len(afs), time.time() - t))
     t1, st = vlib.judge("TraceStatic.tla", segs, res.wd, "cli", shards=8)
     res.add_judge("cli", t1, st, only_props={"C05"})
